@@ -12,7 +12,7 @@ package testsuite
 //   accounts : Insert/Update/DeleteAccount, Insert/Update/DeleteResource (asset and app;
 //              holding / params+holding / params-only), Insert/DeleteCreatable, UpdateAccountsRound
 //   kv       : UpsertKvPair / DeleteKvPair over the prefix-sharing keys
-//              {"a","a\x00","ab","b","\xff","\xff\xff"} with values {"1","", "22"}, UpdateAccountsRound
+//              {"a","a\x00","a\xff","ab","b","\xff","\xff\xff"} with values {"1","", "22"}, UpdateAccountsRound
 //   online   : InsertOnlineAccount (two stakes, offline entry, late expiry; new round or same
 //              round as another account), OnlineAccountsDelete(forgetBefore),
 //              AccountsPutOnlineRoundParams, AccountsPruneOnlineRoundParams, UpdateAccountsRound
@@ -598,19 +598,19 @@ func c47harnesses(run *c47run) []*c47harness {
 	// accounts / resources / creatables
 	{
 		nA := 2
-		nI := ve.Pick(2, 3)
+		nI := 2
 		var s []c47w
 		for a := 0; a < nA; a++ {
 			s = append(s, c47w{k: c47wInsAcct, a: int8(a), v: int8(a % 2)}, c47w{k: c47wUpdAcct, a: int8(a), v: int8((a + 1) % 2)}, c47w{k: c47wDelAcct, a: int8(a)})
 			for i := 0; i < nI; i++ {
-				// A holds, B owns (creator); thorough adds the params-only variant
+				// A holds, B owns (creator)
 				v0 := int8(0)
 				if a == 1 {
 					v0 = 1
 				}
 				s = append(s, c47w{k: c47wInsRes, a: int8(a), i: int8(i), v: v0}, c47w{k: c47wUpdRes, a: int8(a), i: int8(i), v: 1 - v0}, c47w{k: c47wDelRes, a: int8(a), i: int8(i)})
-				if thorough && a == 1 {
-					s = append(s, c47w{k: c47wUpdRes, a: int8(a), i: int8(i), v: 2})
+				if a == 1 && i == 0 {
+					s = append(s, c47w{k: c47wUpdRes, a: int8(a), i: int8(i), v: 2}) // params only (not holding)
 				}
 			}
 		}
@@ -643,7 +643,7 @@ func c47harnesses(run *c47run) []*c47harness {
 			s = append(s, c47w{k: c47wKvDel, i: int8(i)})
 		}
 		s = append(s, round)
-		h := &c47harness{name: "kv", singles: s}
+		h := &c47harness{name: "kv", singles: s, depth: 3}
 		h.sweep = func(k *c47sink, rd *c47readers, s *c47sys) {
 			k.read("AccountsRound", "", func(o *c47obs) error {
 				r, err := rd.arx.AccountsRound()
@@ -659,10 +659,7 @@ func c47harnesses(run *c47run) []*c47harness {
 			if a.i == b.i {
 				return true // same key: both orders (put/put, put/delete, delete/put)
 			}
-			// different keys: writes commute, one order; quick keeps neighbouring (prefix-sharing) keys
-			if thorough {
-				return a.i < b.i
-			}
+			// different keys: writes commute, one order, neighbouring (prefix-sharing) keys
 			return b.i == a.i+1
 		})
 	}
@@ -683,15 +680,12 @@ func c47harnesses(run *c47run) []*c47harness {
 			s = append(s, c47w{k: c47wOnDel, i: int8(i)})
 		}
 		s = append(s, round)
-		h := &c47harness{name: "online", singles: s, rangeDeletes: true}
+		h := &c47harness{name: "online", singles: s, rangeDeletes: true, depth: 3}
 		h.sweep = func(k *c47sink, rd *c47readers, s *c47sys) {
 			c47sweepOnline(k, rd, nA, s.m.onClock, s.m.orpHi, s.p.proto.RewardUnit, s.onlineRows)
 		}
 		add(h, func(a, b c47w) bool {
-			if thorough {
-				return !(isRound(a) && isRound(b))
-			}
-			// quick: insert followed by {delete, round, same-round insert of the other account}, delete followed by insert
+			// pairs: insert followed by {delete, round, same-round insert of the other account}, delete followed by insert
 			switch {
 			case a.k == c47wOnIns && (b.k == c47wOnDel || isRound(b) || (b.k == c47wOnIns && b.i == 1 && b.a != a.a)):
 				return true
@@ -745,20 +739,24 @@ func c47harnesses(run *c47run) []*c47harness {
 			{k: c47wInsAcct, a: 0, v: 0}, {k: c47wDelAcct, a: 0},
 			{k: c47wInsRes, a: 0, i: 0, v: 0}, {k: c47wDelRes, a: 0, i: 0},
 			{k: c47wInsCrt, a: 0, i: 0},
-			{k: c47wKvPut, i: 1, v: 0}, {k: c47wKvPut, i: 4, v: 1}, {k: c47wKvDel, i: 1},
+			{k: c47wKvPut, i: 1, v: 0}, {k: c47wKvPut, i: 5, v: 1}, {k: c47wKvDel, i: 1},
 			{k: c47wOnIns, a: 0, v: 0, i: 0}, {k: c47wOnIns, a: 1, v: 0, i: 1}, {k: c47wOnDel, i: 1},
 			{k: c47wTailNew, v: 1, i: 1}, {k: c47wTotals, v: 1, i: 0}, {k: c47wOrpPut, v: 1}, {k: c47wSpStore, v: 1},
 			round,
 		}
 		h := &c47harness{name: "mixed", singles: s, limited: true, rangeDeletes: true, depth: c47depth - 1}
+		mixedPairs := func(a, b c47w) bool { return !thorough || isRound(a) || isRound(b) }
 		h.sweep = func(k *c47sink, rd *c47readers, s *c47sys) {
 			c47sweepAccounts(k, rd, 2)
 			c47sweepKV(k, rd, &s.m, false)
 			c47sweepOnline(k, rd, 2, s.m.onClock, s.m.orpHi, s.p.proto.RewardUnit, s.onlineRows)
 			c47sweepTails(k, rd, &s.m, true, true, true)
 		}
-		add(h, nil)
+		add(h, mixedPairs)
 	}
+	// smallest explorations first, so that a run stopped by the time budget has covered most groups
+	order := map[string]int{"roundparams": 0, "stateproofs": 1, "txtail": 2, "totals": 3, "mixed": 4, "accounts": 5, "online": 6, "kv": 7}
+	sort.SliceStable(hs, func(i, j int) bool { return order[hs[i].name] < order[hs[j].name] })
 	return hs
 }
 
